@@ -8,6 +8,9 @@ CHECKS = {
  "C08": dict(level="exploration", engine="bex", technique="exhaustive small-scope enumeration (all boundary parameter tuples; every legal chunking via stateless choice-sequence DFS) on the real chunk writer/reader against an independent spec codec",
    text="Every (length, timestamp, csid, chunk size, type, msid) tuple of the boundary domains is serialised by lal's real chunk writer and decoded by an independent RTMP 1.0 chunk decoder and by lal's own composer; every legal chunking (header format per message x interleaving of chunk streams, Set Chunk Size at every position, aggregates) that a reference encoder can produce for short message sequences is enumerated exhaustively (stateless DFS over the encoder's choice points) and decoded by lal's composer. Exhaustive within the listed domains, not a proof for all 2^24 lengths.",
    note="Trusted: lib/ref/rtmpchunk.go (reference codec written from the spec). Chunk size is scaled down instead of message length scaled up on the read side (composer compares only MsgLen/msg.Len()/peerChunkSize). Deltas stay below 0xFFFFFF as the property states.", design="C08"),
+ "C18": dict(level="exploration", engine="bex", technique="exhaustive small-scope enumeration of value trees by node count, of all byte strings <= L over the marker alphabet, of every prefix and field mutation, and of nesting families to the 16 MiB limit in worker processes",
+   text="All values lal can encode (leaf/key boundary alphabets), all AMF0 trees up to N nodes from a reference encoder, every strict prefix of each, every byte string up to length L over the 12-symbol marker alphabet and every 16/32-bit field mutation of valid encodings are pushed through all 14 exported readers; nesting families are decoded at depths up to what fits in a 16 MiB message, each in a subprocess so that stack exhaustion (uncatchable) is observed. Exhaustive within those bounds.",
+   note="Trusted: lib/ref/amf0.go. Equality is modulo null/undefined members (skipped by lal's readers by design). Agreement with the spec reader is only demanded for canonical inputs.", design="C18"),
 }
 NOT_YET = "check not built yet in this session (work in progress; see DESIGN.md section for the planned model-checking design)"
 
